@@ -44,6 +44,13 @@ def gen_lines(rnd, tier):
                 L.append("verify|%s|1|0|1:M%sp:%s%sp|0" % (kd[0], si, kd[2], sc))
         for o, v, k in itertools.product(range(3), (0, 1), (0, 1)):
             L.append("verify|%s|1|0|1:M%sp:D0.%d.%d.%dp|0" % ("oc"[(i + o + v + k) % 2], si, o, v, k))
+    # static methods (class and instance verification): the function as it stands, nothing plays self
+    for i, si in enumerate(SIGS):
+        for j, sc in enumerate(SIGS):
+            if tier == "thorough" or (i + j) % 2 == 0:
+                L.append("verify|%s|1|0|1:M%s:T%s|0" % ("co"[(i + j // 2) % 2] if tier != "thorough" else "c", si, sc))
+                if tier == "thorough":
+                    L.append("verify|o|1|0|1:M%s:T%s|0" % (si, sc))
     # ... and once with implementations that mark parameters positional-only (PEP 570 `/`), which changes no positional call shape
     for i, si in enumerate(SIGS):
         for j, sc in enumerate(SIGS):
@@ -126,6 +133,8 @@ def to_model(line):
             c = "N"            # any present attribute
         if c[0] == "D":
             c = "G" + c[1:]    # the signature left once the (defaulted) self is dropped
+        if c[0] == "T":
+            c = "F" + c[1:]    # a static method: the function as it stands
         es.append("%s:%s:%s" % (n, d, c))
     f[3] = "1" if f[3] == "2" else f[3]
     return "|".join(f[:4] + [";".join(es)])
@@ -145,6 +154,8 @@ def count_naming(chk, line):
     for e in line.split("|")[4].split(";"):
         n, d, c = e.split(":")
         if d[0] != "M" or c[0] not in "FGD":
+            if c[0] == "T":
+                chk.count("static_method_candidates")
             continue
         if c[-1] in "st":
             chk.count("implementations_with_positional_only_parameters")
